@@ -107,11 +107,39 @@ def _arg(case):
     return case['text']
 
 
+# Ambient configuration: the helpers must behave the same whatever the
+# process' stdin encoding is whenever `incoming` is given explicitly (and
+# to_utf8 has no such parameter at all), so every case runs under one of
+# several fake sys.stdin objects (chosen from the case, kept in the case for
+# replay).
+AMBIENTS = (None, 'latin-1', 'ascii', 'utf-16', 'cp1252', 'UNSET')
+_AMBIENT = [None]
+
+
+class _FakeStdin:
+    def __init__(self, enc):
+        self.encoding = None if enc == 'UNSET' else enc
+
+
+def _set_ambient(case):
+    if 'ambient' not in case:
+        case['ambient'] = AMBIENTS[core.h64(repr(sorted(
+            (k, repr(v)) for k, v in case.items()))) % len(AMBIENTS)]
+    _AMBIENT[0] = case['ambient']
+
+
 def _run(fn, *a, **kw):
+    import sys
+    amb = _AMBIENT[0]
+    saved = sys.stdin
+    if amb is not None:
+        sys.stdin = _FakeStdin(amb)
     try:
         return ('ok', fn(*a, **kw))
     except Exception as e:
         return ('exc', e)
+    finally:
+        sys.stdin = saved
 
 
 def _show(r):
@@ -144,6 +172,7 @@ def _weak(col, sub, what, got, typ, case, call):
 # oracles on plain cases
 
 def check_decode(col, eu, case, sub):
+    _set_ambient(case)
     """safe_decode: str unchanged; bytes decoded with `incoming`, falling
     back to UTF-8 when that fails."""
     x, inc, err = _arg(case), case['incoming'], case['errors']
@@ -172,6 +201,7 @@ def check_decode(col, eu, case, sub):
 
 
 def check_encode_str(col, eu, case, sub):
+    _set_ambient(case)
     """safe_encode(str): bytes in `encoding`; safe_decode(..., incoming=
     encoding) gives the text back when the codec is bijective on it."""
     t, inc, enc, err = case['text'], case['incoming'], case['encoding'], \
@@ -207,6 +237,7 @@ def check_encode_str(col, eu, case, sub):
 
 
 def check_encode_bytes(col, eu, case, sub):
+    _set_ambient(case)
     """safe_encode(bytes): untouched when the two names agree (case-
     insensitively), else transcoded from `incoming` to `encoding`."""
     b, inc, enc, err = _arg(case), case['incoming'], case['encoding'], \
@@ -250,6 +281,7 @@ def check_encode_bytes(col, eu, case, sub):
 
 
 def check_to_utf8(col, eu, case, sub):
+    _set_ambient(case)
     x = _arg(case)
     got = _run(eu.to_utf8, x)
     want = x if isinstance(x, bytes) else x.encode('utf-8')
@@ -300,6 +332,7 @@ _SLUG_OK = re.compile(r'[a-z0-9_-]*\Z')
 
 
 def check_slug(col, su, case, sub):
+    _set_ambient(case)
     x, inc, err = _arg(case), case['incoming'], case['errors']
     call = 'to_slug(%r, incoming=%r, errors=%r)' % (x, inc, err)
     got = _run(su.to_slug, x, incoming=inc, errors=err)
